@@ -46,7 +46,8 @@ def conclude(pid, tier, seed, obls, infos, undecided_reasons, wall, write_eviden
     P = props.PROPS[pid]
     viol, known, undec = [], [], list(undecided_reasons)
     # Verus / PolyVC give no counterexample: search for a failing input on the real code
-    WITNESS_MODES = ("c10_jubjub_fr", "c11_jubjub", "c11_bls")
+    WITNESS_MODES = {"c10_jubjub_fr": "c10_jubjub_fr", "c11_jubjub": "c11_jubjub", "c11_bls": "c11_bls",
+                     "c10_curve25519_fp": "c10_c25519_fp"}
     for ob in obls:
         if ob.backend in ("verus", "polyvc") and getattr(ob, "unit_name", None) in WITNESS_MODES and not getattr(ob, "replay", None):
             resource = ob.status == UNDECIDED and re.search(r"rlimit|Resource limit|timed out", ob.detail or "")
@@ -54,7 +55,7 @@ def conclude(pid, tier, seed, obls, infos, undecided_reasons, wall, write_eviden
                 import witness
                 parts = ob.name.split(".")
                 key = parts[2] if len(parts) > 2 else ob.name
-                hit = witness.attach(ob, ob.unit_name, key, seed, tier)
+                hit = witness.attach(ob, WITNESS_MODES[ob.unit_name], key, seed, tier)
                 if hit and ob.status == UNDECIDED:
                     ob.status = FAILED
                     ob.detail += "\n(promoted from undecided: the witness search found a failing input on the real code)"
